@@ -55,8 +55,12 @@ PROPS = {
                     "parking executors set through Engine.Execute) and comparing events, return values and queue lengths after the "
                     "implementation has become stable; a log-only oracle checks the property on the implementation alone",
             "note": "interleavings of the real code are not enumerated: Lean quantifies over all schedules of the model, the harness "
-                    "replays chosen ones; atomicity of the model steps rests on the mutex structure of the three functions (read, not "
-                    "extracted); concurrent bursts are free-running and compared through the observed run order; a second, end-to-end run "
+                    "replays chosen ones; atomicity of the model steps rests on the mutex structure of the three functions (checked on the "
+                    "source by the cs predicates, not derived); concurrent bursts are free-running: their run order is an input taken "
+                    "from the implementation and validated by driver code (JobQMain.admissible: an order-preserving merge of the "
+                    "submitters' sequences), not by a theorem; 'whichever executor' is proved for executors that eventually run what "
+                    "they are given; the HTTP-handler side of 'handlers and callbacks never overlap' has no model of nbhttp's submission "
+                    "sites (cs_nbhttp_close_routed + the oracle below); a second, end-to-end run "
                     "(hwscb -tier c05, owned by the stop family: real nbhttp engine on loopback, poller/blockparser upgrade paths in "
                     "lt|et|etos) checks the consequence 'HTTP handler and WebSocket callbacks of one connection never overlap' with "
                     "the oracle c05-overlap; its model side is C14's WsCb.execOf table (those paths use the same per-conn ExecQ)",
@@ -82,7 +86,12 @@ PROPS = {
                     "hook, Stop) and checking that every stable state the implementation reaches is a stable successor state of the model; "
                     "bound / exactly-once / panic / barrier-capacity oracles run on the implementation alone",
             "note": "interleavings of the real code are not enumerated (Lean quantifies over the model's schedules, the harness replays "
-                    "chosen ones); the custom-caller variant of taskpool.New is not modelled; tasks still queued at Stop are recorded as a finding",
+                    "chosen ones); NOT established: 'every task handed over before Stop runs exactly once' is violated for tasks still queued "
+                    "at Stop (finding C19-stop-drop, c19_stop_drop_counterexample) and proved only for runs without Stop; oracle only: "
+                    "IOTaskPool buffer exclusivity/size (c19-iobuf), the custom-caller variant of New (run against the same model, its wrapper "
+                    "is not modelled), that caller's recover covers worker and dispatcher (c19-panic); the parallelism "
+                    "theorem gives n-1 simultaneous tasks for New(n, q) (n-2 workers + the dispatcher), not n; TaskPool.Call (caller(f) inline) is neither modelled nor exercised; the driver accepts any stable "
+                    "successor state of the model (belief set), queue order is observed only through later start order",
             "technique": "Lean 4 proof (inductive invariants of a transition system) + schedule replay / differential correspondence"},
         "lean": ["NbioVerif.Properties.C19"], "drivers": ["tpooldrv", "jobqdrv"], "harness": ["htpool", "hjobq"],
         "runs": [TPOOL_RUN, JOBQ_RUN],
@@ -103,7 +112,10 @@ PROPS = {
                     "differential execution of random Malloc/Append/AppendString/Realloc/Free programs (len, cap, content and stale-byte "
                     "fingerprints compared), and len/content/alias/frame oracles run on the implementation alone",
             "note": "model fidelity is sampled; sync.Pool and the Go allocator are modelled as inputs (pool choice recovered from pointer "
-                    "identity / backing-array addresses); concurrent programs are a supporting oracle-only stream",
+                    "identity / backing-array addresses), so cap after a growth is an echo of the observed capacity; oracle only: concurrent use "
+                    "(P programs; the aligned allocator's package-level pools shared between instances are one bag per case in the model) "
+                    "and address-level disjointness (the model's handle is (region, len) at offset 0: that the allocators never return an "
+                    "interior slice is checked by c20-alias, not proved); the content of the bytes added by Realloc is unspecified",
             "technique": "Lean 4 proof (heap invariant by induction over op sequences) + differential correspondence"},
         "lean": ["NbioVerif.Properties.C20", srcgen.BRIDGE_ALLOC], "drivers": ["allocdrv"], "harness": ["halloc"],
         "facts": [srcgen.src_facts],
